@@ -167,6 +167,217 @@ class RenumberParticles(Contract):
                 ("other_fields_unchanged", _unchanged(out, old, [c for c in MOTL_COLS if c != "subtomo_id"]), ()), ("rows_kept", z3.simplify(out.present) == z3.BoolVal(True), ())]
 
 
+# ---------------------------------------------------------------------------------------------------------------------------------
+# renumber_objects_sequentially: groupby("tomo_id").apply(helper) with a counter carried from group to group (nonlocal).  Verified as a fold over
+# the groups in ascending key order by an inductive invariant; the helper is executed from the real AST on one arbitrary group.
+
+
+class _SeqTable(frames._Generic):
+    """self.df as position functions: tomo(i), obj(i) for rows 0 <= i < N (the other 18 fields are never touched: only object_id is stored to)"""
+
+    def __init__(self):
+        self.N = z3.Int("N_rows")
+        ctx().assume(self.N >= 0)
+        self.tomo = z3.Function("tomo_of", z3.IntSort(), z3.RealSort())
+        self.obj = z3.Function("object_of", z3.IntSort(), z3.RealSort())
+        self.columns = list(MOTL_COLS)
+        self.log = []
+
+    def reset_index(self, drop=False, **k):
+        if not drop:
+            raise sym.Unsupported("reset_index(drop=False)")
+        self.log.append("reset_index")
+        return self
+
+    def groupby(self, by, group_keys=True, sort=True, **k):
+        if by != "tomo_id" or k or not sort:
+            raise sym.Unsupported("groupby form")
+        self.log.append(("groupby", by, group_keys))
+        return _GroupBy(self)
+
+
+class _GroupBy:
+    """assumed contract of DataFrame.groupby(key, sort=True)[all columns].apply(f): f is called once per distinct key in ascending key order with the
+    rows of that key (in table order); the result holds the rows of the returned groups, every row exactly once"""
+
+    def __init__(self, t):
+        self.t = t
+
+    def __getitem__(self, cols):
+        if list(cols) != list(MOTL_COLS):
+            raise sym.Unsupported("column selection of the grouped table")
+        return self
+
+    def apply(self, fn, *a, **k):
+        from vfw.interp import IFunc
+        cx, t = ctx(), self.t
+        if a or k or not isinstance(fn, IFunc) or fn.closure is None or not fn.closure.has("start_number"):
+            raise sym.Unsupported("apply: helper form")
+        g = z3.Real("group_key")
+        S0 = fn.closure.get("start_number")
+        holder = cx.__dict__.setdefault("renumber", {})
+        holder["counter_at_entry"] = S0
+        start0 = zr(S0)
+        cg = z3.Int("numbers_given_so_far")                                    # the counter is start + cg
+        Sg = start0 + z3.ToReal(cg)
+        nid = z3.Function("offset_so_far", z3.IntSort(), z3.IntSort())        # ghost: row of an earlier group -> its number minus start
+        wit = z3.Function("row_with_offset", z3.IntSort(), z3.IntSort())      # ghost: offset -> a row of an earlier group carrying it
+        newid = lambda x: start0 + z3.ToReal(nid(x))
+        r, r2, c = z3.Int("r!g"), z3.Int("r2!g"), z3.Int("c!g")
+        rows = lambda x: z3.And(x >= 0, x < t.N)
+        earlier = lambda x: z3.And(rows(x), t.tomo(x) < g)
+        # the invariant of the fold when the helper is entered for group g (hypothesis of the arbitrary iteration): the numbers given so far are
+        # start + 0 .. start + cg - 1, each used, and two rows share a number exactly when they share tomogram and object
+        inv = [cg >= 0,
+               z3.ForAll([r], z3.Implies(earlier(r), z3.And(nid(r) >= 0, nid(r) < cg))),
+               z3.ForAll([r, r2], z3.Implies(z3.And(earlier(r), earlier(r2)), (nid(r) == nid(r2)) == z3.And(t.tomo(r) == t.tomo(r2), t.obj(r) == t.obj(r2)))),
+               z3.ForAll([c], z3.Implies(z3.And(c >= 0, c < cg), z3.And(earlier(wit(c)), nid(wit(c)) == c)))]
+        for f in inv:
+            cx.assume(f)
+        some = z3.Int("some_row_of_group")
+        cx.assume(z3.And(rows(some), t.tomo(some) == g))  # groups are non-empty
+        _set_closure(fn.closure, "start_number", SV(Sg))
+        grp = _Group(t, g)
+        out = fn(grp)
+        S1 = fn.closure.get("start_number")
+        holder.update(g=g, Sg=Sg, cg=cg, start0=start0, nid=nid, wit=wit, grp=grp, returned=out, S1=S1, t=t)
+        return _Renumbered(t, holder)
+
+
+def _set_closure(env, k, v):
+    e = env
+    while e is not None:
+        if k in e.vars:
+            e.vars[k] = v
+            return
+        e = e.parent
+
+
+class _Renumbered:
+    def __init__(self, t, holder):
+        self.t, self.holder = t, holder
+
+
+class _Group(frames._Generic):
+    """the rows of one group (tomo_id == key), in table order"""
+
+    def __init__(self, t, g):
+        self.t, self.g = t, g
+        self.newobj = None
+
+    def inside(self, x):
+        return z3.And(x >= 0, x < self.t.N, self.t.tomo(x) == self.g)
+
+    def __getitem__(self, c):
+        if c != "object_id":
+            raise sym.Unsupported("group column other than object_id")
+        return _GCol(self, self.newobj if self.newobj is not None else (lambda i: self.t.obj(i)))
+
+    def __setitem__(self, c, v):
+        if c != "object_id" or not isinstance(v, _GCol) or v.grp is not self:
+            raise sym.Unsupported("store into the group")
+        self.newobj = v.f
+
+
+class _GCol(frames._Generic):
+    def __init__(self, grp, f):
+        self.grp, self.f = grp, f
+
+    def factorize(self, *a, **k):
+        """assumed contract of pandas factorize: integer codes 0..K-1 numbered by first appearance -- equal values get equal codes, different values
+        different codes, every code below K is used"""
+        if a or k:
+            raise sym.Unsupported("factorize options")
+        cx, grp = ctx(), self.grp
+        code = z3.Function("factorize_code", z3.IntSort(), z3.IntSort())
+        cw = z3.Function("row_with_code", z3.IntSort(), z3.IntSort())
+        K = z3.Int("n_distinct_in_group")
+        i, j, c = z3.Int("i!f"), z3.Int("j!f"), z3.Int("c!f")
+        cx.axiom("pandas factorize: codes 0..K-1, equal codes exactly for equal values, every code used",
+                 z3.And(K >= 1,
+                        z3.ForAll([i], z3.Implies(grp.inside(i), z3.And(code(i) >= 0, code(i) < K))),
+                        z3.ForAll([i, j], z3.Implies(z3.And(grp.inside(i), grp.inside(j)), (code(i) == code(j)) == (self.f(i) == self.f(j)))),
+                        z3.ForAll([c], z3.Implies(z3.And(c >= 0, c < K), z3.And(grp.inside(cw(c)), code(cw(c)) == c)))))
+        ctx().__dict__.setdefault("renumber", {}).update(code=code, cw=cw, K=K)
+        return (_GCol(grp, lambda i: z3.ToReal(code(i))), "uniques")
+
+    def _arith(self, o, op):
+        ot = zr(o)
+        return _GCol(self.grp, lambda i, f=self.f: op(f(i), ot))
+
+    def __add__(self, o): return self._arith(o, lambda a, b: a + b)
+    def __radd__(self, o): return self._arith(o, lambda a, b: a + b)
+    def __sub__(self, o): return self._arith(o, lambda a, b: a - b)
+
+    def max(self):
+        cx, grp = ctx(), self.grp
+        M, w, i = cx.fresh("group_max", "Real"), cx.fresh("group_max_row", "Int"), z3.Int("i!m")
+        cx.axiom("pandas Series.max over a non-empty group is attained by one of its rows and dominates all of them",
+                 z3.And(grp.inside(w), self.f(w) == M, z3.ForAll([i], z3.Implies(grp.inside(i), self.f(i) <= M))))
+        return SV(M)
+
+    @property
+    def iloc(self):
+        col = self
+
+        class _IL:
+            def __getitem__(self, k):
+                if k != -1:
+                    raise sym.Unsupported("iloc position in a group column")
+                cx, grp = ctx(), col.grp
+                L, i = cx.fresh("group_last_row", "Int"), z3.Int("i!l")
+                cx.axiom("the last row of a group is one of its rows and no row of the group comes after it", z3.And(grp.inside(L), z3.ForAll([i], z3.Implies(grp.inside(i), i <= L))))
+                return SV(col.f(L))
+        return _IL()
+
+
+class RenumberObjects(Contract):
+    """renumber_objects_sequentially: the fold over the tomograms (ascending) keeps the invariant  "the numbers given so far are start .. counter-1, each
+    used, and two rows share a number exactly when they share tomogram and object"; at the end this is the property's clause for the whole list"""
+    prop = "C08"
+    module = "cryomotl"
+    qual = "Motl.renumber_objects_sequentially"
+
+    def bind(self, cx, cfg):
+        it = common.motl_interp()
+        t = _SeqTable()
+        me = common.motl_obj(it, t)
+        start = SV(z3.Int("starting_number"))
+        return (lambda: it.function("Motl.renumber_objects_sequentially").bind(me)(start)), {"me": me, "t": t, "start": start}
+
+    def post(self, cx, cfg, inp, res):
+        h = getattr(cx, "renumber", {})
+        out = inp["me"].df
+        cl = [("table_replaced_by_the_result_of_the_grouped_apply", z3.BoolVal(isinstance(out, _Renumbered) and out.t is inp["t"])),
+              ("grouped_by_tomogram_without_group_keys_after_an_index_reset", z3.BoolVal(inp["t"].log == ["reset_index", ("groupby", "tomo_id", False)]))]
+        if not isinstance(out, _Renumbered) or "S1" not in h:
+            return cl
+        t, g, cg, start0, nid, wit, grp = h["t"], h["g"], h["cg"], h["start0"], h["nid"], h["wit"], h["grp"]
+        cl.append(("counter_starts_at_the_requested_number", zr(h["counter_at_entry"]) == zr(inp["start"]), ()))
+        cl.append(("helper_returns_its_group_with_only_the_object_number_replaced", z3.BoolVal(h["returned"] is grp and grp.newobj is not None)))
+        code, cw = h.get("code"), h.get("cw")
+        if grp.newobj is None or code is None:
+            return cl
+        S1 = zr(h["S1"])
+        c1 = z3.Int("numbers_given_after_this_group")
+        hy = [S1 == start0 + z3.ToReal(c1)]                                    # c1 names the counter's offset after the group (first clause: it is an integer)
+        off = lambda x: z3.If(t.tomo(x) == g, code(x) + cg, nid(x))            # ghost after this group: offsets of the rows of all groups up to g
+        new = lambda x: z3.If(t.tomo(x) == g, grp.newobj(x), start0 + z3.ToReal(nid(x)))
+        upto = lambda x: z3.And(x >= 0, x < t.N, t.tomo(x) <= g)
+        r, r2, c = z3.Int("r!p"), z3.Int("r2!p"), z3.Int("c!p")
+        w2 = lambda k: z3.If(k < cg, wit(k), cw(k - cg))
+        cl += [("inv.preserve.counter_is_start_plus_a_natural_number", z3.And(S1 >= start0, z3.IsInt(S1 - start0)), ()),
+               ("inv.preserve.number_of_a_row_is_start_plus_its_offset_below_the_counter", z3.ForAll([r], z3.Implies(upto(r), z3.And(new(r) == start0 + z3.ToReal(off(r)), off(r) >= 0, off(r) < c1))), (), hy),
+               ("inv.preserve.same_number_iff_same_tomogram_and_object",
+                z3.ForAll([r, r2], z3.Implies(z3.And(upto(r), upto(r2)), (off(r) == off(r2)) == z3.And(t.tomo(r) == t.tomo(r2), t.obj(r) == t.obj(r2)))), (), hy),
+               ("inv.preserve.every_number_below_the_counter_is_used", z3.ForAll([c], z3.Implies(z3.And(c >= 0, c < c1), z3.And(upto(w2(c)), off(w2(c)) == c))), (), hy)]
+        return cl
+
+    def replay(self, clause, model, cfg):
+        from rtc import c08 as r
+        return r.replay_renumber_objects()
+
+
 class SplitByFeature(Contract):
     """split_by_feature(field): one list per distinct value of the field; the generic row lies in the piece of its own value (and, the pieces being
     selected by equality with pairwise different values, in no other), unchanged, under the 20-field schema"""
@@ -290,14 +501,20 @@ class DropDuplicates(Contract):
         return {"reproduced": None, "why": "decided by the bounded histories"}
 
 
-CONTRACTS = [GetSubset, RemoveFeature, Intersection, MergeAndRenumber, RenumberParticles, SplitByFeature, DropDuplicates]
+CONTRACTS = [GetSubset, RemoveFeature, Intersection, MergeAndRenumber, RenumberParticles, RenumberObjects, SplitByFeature, DropDuplicates]
 LEVEL = "proof"
 EXPLANATION = ("Membership (with multiplicity), row preservation and the 20-field schema are postconditions of get_motl_subset, remove_feature, get_motl_intersection, "
                "merge_and_renumber (2 and 3 inputs: object numbers of different inputs differ for arbitrary rows, ids = position+1) and renumber_particles, proved on generic rows "
                "of the real AST; selection/removal complementarity as a lemma; since every operation's contract has wf(old) => wf(new) the schema holds after any history. "
-               "Order inside results, renumber_objects_sequentially (groupby.apply) and merge_and_drop_duplicates: bounded histories only.")
+               "renumber_objects_sequentially: the helper applied per tomogram is executed from the real AST on one arbitrary group; the fold over the tomograms in ascending order keeps the invariant "
+               "'the numbers given so far are start .. counter-1, each of them used, and two rows share a number exactly when they share tomogram and object' (four preservation obligations with ghost offset / "
+               "witness functions; the counter starts at the requested number), which after the last tomogram is the property's clause for the whole list. "
+               "Order inside results and merge_and_drop_duplicates: bounded histories only.")
 ASSUMPTIONS = ["pandas contract: inner merge on a shared column repeats a left row once per matching right row, Series.drop_duplicates keeps one row per value; concat keeps all rows; min/max of a column bound every row",
-               "requires of get_motl_subset: requested values distinct (duplicates would duplicate rows, as documented by the loop)"]
+               "requires of get_motl_subset: requested values distinct (duplicates would duplicate rows, as documented by the loop)",
+               "pandas contract for renumber_objects_sequentially: groupby(key, sort=True)[all columns].apply(f) calls f once per distinct key in ascending order with that key's rows and returns the rows of the returned "
+               "groups, every row once; Series.factorize gives codes 0..K-1 with equal codes exactly for equal values and every code used; Series.max is attained and dominates; the other 18 fields are untouched "
+               "because the group model admits a store to object_id only"]
 
 
 def lemmas(ck):
